@@ -1,5 +1,5 @@
 """C08 an evaluation interrupted anywhere resumes to the same outcome."""
-REG_DRAFT = dict(
+REG = dict(
     engine='E3-sched',
     technique='exhaustive fault (interrupt) injection at every interpreter step of each corpus program, and at every pair / triple of steps, on the real JSON-session handler; resumed to completion and compared with the uninterrupted run',
     text="For each program of a hand-written corpus (one construct per program, covering every Expression_ variant in every ExpressionState of eval_expr, plus programs ending in each kind of runtime error): T = interpreter steps of the uninterrupted session run. The interrupt flag is raised at EVERY step k in 1..T (hook in the eval loop), then `:resume` is sent until the evaluation finishes; every pair of interrupt points for T <= 40 (quick) / all programs (thorough) and every triple for T <= 24 (thorough), including re-interrupting the step that was just resumed. Oracle: the sequence of printed chunks (stdout and stderr) and the final value or error (message and position) equal those of the uninterrupted run, and every injection produces exactly one `interrupted` response. Also: the uninterrupted session outcome equals the plain `run` outcome. Fault enumeration is the right level: the property quantifies over crash points of a deterministic evaluation.",
